@@ -3,7 +3,7 @@ From V.lib Require Import Base.
 (* read-only: the independent parameter-set serialisers of C15 (used by the driver's GEN mode); imported first so
    that the names of the C19 model win *)
 From V.c15 Require Import C15Model C15Spec C15HevcModel C15HevcSpec.
-From V.c01 Require Import C01Codec C01Model.
+From V.c19 Require Import C19BoxCodec C19BoxModel.
 From V.c19 Require Import C19Model C19RecModel C19TreeModel.
 Require Import ExtrOcamlBasic.
 Separate Extraction
